@@ -85,7 +85,11 @@ class World:
         mods = [ir.modname(prog, m) for m in prog["mods"]]
         loc = self.case.get("location", "package")
         main = ir.modname(prog, prog["mods"][0])
-        p.call({"cmd": "init", "srcdir": self.srcdir(self.cur), "accept": ir.accepted_names(prog),
+        acc = ir.accepted_names(prog)
+        if self.case.get("late_accept"):
+            acc = acc[1:]          # the program's own package is accepted later by an explicit "accept" operation
+            info["accepted"] = False
+        p.call({"cmd": "init", "srcdir": self.srcdir(self.cur), "accept": acc,
                 "store": self.full_store_spec(info["store"]), "modules": mods,
                 "options": self.case.get("options", []), "cwd": self.case.get("cwd"), "location": loc,
                 "main_module": main if loc != "package" else None,
@@ -164,6 +168,13 @@ class World:
             self.do_illeval(i, op)
         elif k == "exteval":
             self.do_exteval(i, op)
+        elif k == "accept":
+            info = self.ensure_proc(op.get("proc", 0))
+            prog = self.versions[info["ver"]]
+            info["proc"].call({"cmd": "accept", "names": ir.accepted_names(prog)[:1]})
+            info["accepted"] = True
+            self.log.append([i, "accept"])
+            self.probe("late_accept")
         elif k == "touch":
             self.ensure_proc(op.get("proc", 0))
         elif k == "load":
@@ -286,6 +297,18 @@ class World:
                 dot = gf.read().decode("utf-8", "replace")
         stages = (op.get("opts") or {}).get("dds_stages")
         full = stages is None
+        if info.get("accepted") is False:
+            # the package is not accepted yet: whatever happens, dds must not run untracked code silently;
+            # the record is kept for C14 and no other oracle applies
+            self.obs.append({"i": i, "op": "eval", "entry": fn, "style": style, "ver": info["ver"], "store": sid,
+                             "ref": ref["res"], "res": out["res"], "log": out["log"], "reflog": ref["log"],
+                             "sigs": _sigs(out["calls"]), "pre_accept": True, "opts": {}, "fail": None, "kept": ref["kept"],
+                             "fps": {}, "kept_fns": []})
+            self.log.append([i, "eval-before-accept", fn, out["res"][:3], out["log"]])
+            self._update_stored(info, prog, out, bm, fn)
+            if out["res"][0] == "ok":
+                self._update_table(m, ref, info, prog, newtab, fn)
+            return
         rec = {"i": i, "op": "eval", "entry": fn, "style": style, "ver": info["ver"], "store": sid, "ref": ref["res"],
                "res": out["res"], "log": out["log"], "reflog": ref["log"], "sigs": _sigs(out["calls"]),
                "stored_keys": [c[1] for c in out["calls"] if c[0] == "store_blob"], "same_exc": out["same_exc"],
